@@ -454,6 +454,10 @@ def side(rng, depth):
 
 def plain_box(rng, dom, cod, counter):
     counter[0] += 1
+    if rng.random() < .25:
+        # a CCG word: a box like any other, possibly with a non-empty domain
+        from discopy.grammar import ccg
+        return ccg.Word("w{}".format(counter[0]), cod, dom=dom)
     return _M["biclosed"].Box("g{}".format(counter[0]), dom, cod)
 
 
